@@ -163,6 +163,19 @@ JUNK = [")", "]", ",", "/", "%", "=", "==", "!=", "<", ">", "<=", ">=", "?", ":"
 
 
 # ---------------------------------------------------------------------------------------------- monitors
+def _iter_rest(it):
+    """what a module-level iterator still holds, WITHOUT consuming it (a deep copy is read instead; where an iterator cannot be
+    copied only its length hint is recorded)"""
+    import copy, warnings, itertools, operator
+    try:
+        with warnings.catch_warnings():
+            warnings.simplefilter("ignore")
+            c = copy.deepcopy(it)
+        return "iterator holding " + repr(list(itertools.islice(c, 200)))
+    except Exception:
+        return "iterator, length hint %d" % operator.length_hint(it, -1)
+
+
 def snapshot():
     """process-global state a later analysis could read (C06 footprint)"""
     import copy
@@ -179,6 +192,9 @@ def snapshot():
                     snap[f"{mname}.{k}"] = repr(v) if not isinstance(v, dict) else repr(sorted(v.items(), key=repr))
                 except Exception:
                     snap[f"{mname}.{k}"] = "<unrepr>"
+            elif hasattr(v, "__next__"):
+                # a module-level ITERATOR is process-global state too (it is consumed by use): what is left in it
+                snap[f"{mname}.{k}"] = _iter_rest(v)
             elif isinstance(v, type) and getattr(v, "__module__", "") == mname:
                 for ck, cv in list(vars(v).items()):
                     if ck.startswith("__") or ck in ("context", "name") or callable(cv) or isinstance(cv, (property, staticmethod, classmethod)):
